@@ -1,4 +1,6 @@
 SPECIFICATION Spec
 INVARIANTS DecTotal AcceptedIsStable EmitCases
 CHECK_DEADLOCK FALSE
-CONSTANT MaxLen = 3
+CONSTANTS
+ MaxLen = 3
+ Dedup = FALSE
